@@ -27,11 +27,12 @@ pub fn prepare(seed: u64, tier: &str, tag: &str, pairs: usize, per_type: usize, 
                 continue;
             }
         }
+        // LE/BE twins (consecutive indices) get the same values
         let r = Ref::new(&rd.desc);
         let mut m = BTreeMap::new();
         for ty in rd.desc.record_ids() {
             let mut vals: Vec<Value> = vec![];
-            for st in draw_streams(seed, &format!("{tag}/values/{}/{ty}", rd.idx), per_type, 300) {
+            for st in draw_streams(seed, &format!("{tag}/values/{}/{ty}", rd.idx / 2), per_type, 300) {
                 let mut s = Src::new(&st);
                 if let Some((v, _)) = gen_encodable(&r, &ty, &mut s) {
                     if !vals.contains(&v) {
